@@ -186,8 +186,14 @@ def fromBoolsLoop : List Nat → Nat → List Bool → List Nat
 def BVec.fromBools (bs : List Bool) : BVec :=
   ⟨fromBoolsLoop (List.replicate (nWords bs.length) 0) 0 bs, bs.length⟩
 
-/-- `filled` (note: the padding bits of the last word are filled too) -/
-def BVec.filled (n : Nat) (v : Bool) : BVec := ⟨List.replicate (nWords n) (if v then W - 1 else 0), n⟩
+/-- `clear_padding`: `if len % 64 > 0 { if let Some(last) = data.last_mut() { *last &= (1 << (len % 64)) - 1 } }` -/
+def BVec.clearPadding (v : BVec) : BVec :=
+  if v.len % 64 > 0 then ⟨v.data.modify (v.data.length - 1) (fun w => w &&& (2 ^ (v.len % 64) - 1)), v.len⟩
+  else v
+
+/-- `filled` (the unused bits of the last word are cleared) -/
+def BVec.filled (n : Nat) (v : Bool) : BVec :=
+  (BVec.mk (List.replicate (nWords n) (if v then W - 1 else 0)) n).clearPadding
 
 /-- `get`: `.err` is `None` -/
 def BVec.get (v : BVec) (i : Nat) : Res Bool :=
@@ -248,12 +254,12 @@ def toBoolsFrom (v : BVec) : Nat → Nat → Res (List Bool)
 def BVec.toBools (v : BVec) : Res (List Bool) := toBoolsFrom v v.len 0
 
 def zipWords (f : Nat → Nat → Nat) (a b : BVec) : BVec :=
-  ⟨(List.zipWith f a.data b.data).take (nWords (min a.len b.len)), min a.len b.len⟩
+  (BVec.mk ((List.zipWith f a.data b.data).take (nWords (min a.len b.len))) (min a.len b.len)).clearPadding
 
 def BVec.and (a b : BVec) : BVec := zipWords (· &&& ·) a b
 def BVec.or (a b : BVec) : BVec := zipWords (· ||| ·) a b
 def BVec.xor (a b : BVec) : BVec := zipWords (· ^^^ ·) a b
-def BVec.not (a : BVec) : BVec := ⟨a.data.map notW, a.len⟩
+def BVec.not (a : BVec) : BVec := (BVec.mk (a.data.map notW) a.len).clearPadding
 
 /-- `to_bytes`: len as u32 (LE) ++ words (LE) -/
 def BVec.toBytes (v : BVec) : List Nat :=
@@ -265,13 +271,12 @@ def BVec.fromBytes (bs : List Nat) : Option BVec :=
   else if bs.length < 4 + nWords (ofLe (bs.take 4)) * 8 then none
   else match readWords (nWords (ofLe (bs.take 4))) (bs.drop 4) with
     | none => none
-    | some ws => some ⟨ws, ofLe (bs.take 4)⟩
+    | some ws => some (BVec.mk ws (ofLe (bs.take 4))).clearPadding
 
 /-- well-formedness kept by every constructor and operation: exactly `ceil(len/64)` words below 2^64 -/
 def BVec.WF (v : BVec) : Prop := v.data.length = nWords v.len ∧ ∀ w ∈ v.data, w < W
 
-/-- the additional property that `from_bools`/`push`/`set`/`and`/`or`/`xor` keep but `filled(_, true)`
-and `not` break: no bit is set at or beyond `len`. -/
+/-- no bit is set at or beyond `len`: kept by every constructor and operation -/
 def BVec.Clean (v : BVec) : Prop := ∀ q, v.len ≤ q → bitmapNull v.data q = false
 
 /-! ## CodecSelector / TypeSpecificCompressor (codec.rs) -/
@@ -353,13 +358,12 @@ def compressSigned (vs : List (BitVec 64)) : CData := compressInts (vs.map (fun 
 /-- `chunks_exact(8)` of the raw bytes -/
 def rawWords (bs : List Nat) : List Nat := (readWords (bs.length / 8) bs).getD []
 
-/-- `RunLengthEncoding::from_bytes(..)?.decode()`: `Vec::<Run>::with_capacity(run_count)` panics
-("capacity overflow") when `run_count * 16 > isize::MAX`, before any run is read -/
+/-- `RunLengthEncoding::from_bytes(..)?.decode()` (the reservation is bounded by the bytes present,
+so an oversized run count ends in the read error) -/
 def rleDecompress (data : List Nat) : Res (List Nat) :=
-  if data.length ≥ 8 ∧ ofLe (data.take 8) ≥ 2 ^ 59 then .panic
-  else match Rle.fromBytes data with
-    | some r => .ok r.decode
-    | none => .err
+  match Rle.fromBytes data with
+  | some r => .ok r.decode
+  | none => .err
 
 /-- `decompress_integers` -/
 def decompressInts (c : CData) : Res (List Nat) :=
@@ -533,19 +537,73 @@ def PCol.decompressAll (c : PCol) : Res PCol :=
 def compressionThreshold : Nat := 1000
 def hotBufferSize : Nat := 4096
 
-/-- `set` -/
-def PCol.set (c : PCol) (id : Nat) (v : PV) : PCol :=
-  let c1 := { c with values := hmInsert c.values id v }
-  if c1.mode = .auto then
-    if c1.values.length ≥ hotBufferSize ∧ c1.values.length + c1.compressedCount ≥ compressionThreshold
-    then c1.compress else c1
-  else c1
+def CCD.ids : CCD → List Nat
+  | .ints _ ids => ids
+  | .strs _ ids => ids
+  | .bools _ ids => ids
 
-/-- `get`: only the hot buffer is consulted -/
-def PCol.get (c : PCol) (id : Nat) : Option PV := hmGet c.values id
+/-- `compressed_position`: `index_to_id.binary_search(&id).ok()` — the ids are sorted and distinct, so
+this is the position of `id` in the list -/
+def PCol.compressedPos (c : PCol) (id : Nat) : Option Nat :=
+  match c.compressed with
+  | none => none
+  | some d => d.ids.idxOf? id
+
+/-- the value at a position of the compressed part -/
+def CCD.valueAt (d : CCD) (pos : Nat) : Res (Option PV) :=
+  match d with
+  | .ints cd _ =>
+    (match decompressInts cd with
+     | .ok ws => .ok ((ws[pos]?).map (fun w => PV.int (zzDec (BitVec.ofNat 64 w))))
+     | .err => .ok none
+     | .panic => .panic)
+  | .strs enc _ => .ok ((enc.get pos).map PV.str)
+  | .bools cd _ =>
+    (match decompressBools cd with
+     | .ok bs => .ok ((bs[pos]?).map PV.bool)
+     | .err => .ok none
+     | .panic => .panic)
+
+/-- `get_compressed` -/
+def PCol.getCompressed (c : PCol) (id : Nat) : Res (Option PV) :=
+  match c.compressed with
+  | none => .ok none
+  | some d => (match d.ids.idxOf? id with
+    | none => .ok none
+    | some pos => d.valueAt pos)
+
+/-- `if self.compressed_position(id).is_some() { self.decompress_all() }` -/
+def PCol.thaw (c : PCol) (id : Nat) : Res PCol :=
+  if (c.compressedPos id).isSome then c.decompressAll else .ok c
+
+/-- the rest of `set` after the stale compressed copy is out of the way -/
+def PCol.setHot (c : PCol) (id : Nat) (v : PV) : PCol :=
+  if c.mode = .auto then
+    if (hmInsert c.values id v).length ≥ hotBufferSize ∧
+       (hmInsert c.values id v).length + c.compressedCount ≥ compressionThreshold
+    then ({ c with values := hmInsert c.values id v } : PCol).compress
+    else { c with values := hmInsert c.values id v }
+  else { c with values := hmInsert c.values id v }
+
+/-- `set` -/
+def PCol.set (c : PCol) (id : Nat) (v : PV) : Res PCol :=
+  match c.thaw id with
+  | .ok c0 => .ok (c0.setHot id v)
+  | .err => .err
+  | .panic => .panic
+
+/-- `get`: the hot buffer, then the compressed values -/
+def PCol.get (c : PCol) (id : Nat) : Res (Option PV) :=
+  match hmGet c.values id with
+  | some v => .ok (some v)
+  | none => c.getCompressed id
 
 /-- `remove` -/
-def PCol.remove (c : PCol) (id : Nat) : PCol := { c with values := hmRemove c.values id }
+def PCol.remove (c : PCol) (id : Nat) : Res PCol :=
+  match c.thaw id with
+  | .ok c0 => .ok { c0 with values := hmRemove c0.values id }
+  | .err => .err
+  | .panic => .panic
 
 /-- `set_compression_mode` -/
 def PCol.setMode (c : PCol) (m : CMode) : Res PCol :=
@@ -578,22 +636,38 @@ def colPut (cols : List (Nat × PCol)) (k : Nat) (c : PCol) : List (Nat × PCol)
   | [] => [(k, c)]
   | (k', c') :: r => if k' = k then (k', c) :: r else (k', c') :: colPut r k c
 
-def PStore.set (s : PStore) (id k : Nat) (v : PV) : PStore :=
-  let c := (colGet s.cols k).getD { mode := s.defaultMode }
-  { s with cols := colPut s.cols k (c.set id v) }
+def PStore.set (s : PStore) (id k : Nat) (v : PV) : Res PStore :=
+  match ((colGet s.cols k).getD { mode := s.defaultMode }).set id v with
+  | .ok c => .ok { s with cols := colPut s.cols k c }
+  | .err => .err
+  | .panic => .panic
 
-def PStore.get (s : PStore) (id k : Nat) : Option PV :=
+def PStore.get (s : PStore) (id k : Nat) : Res (Option PV) :=
   match colGet s.cols k with
-  | none => none
+  | none => .ok none
   | some c => c.get id
 
-def PStore.remove (s : PStore) (id k : Nat) : PStore :=
+def PStore.remove (s : PStore) (id k : Nat) : Res PStore :=
   match colGet s.cols k with
-  | none => s
-  | some c => { s with cols := colPut s.cols k (c.remove id) }
+  | none => .ok s
+  | some c => (match c.remove id with
+    | .ok c' => .ok { s with cols := colPut s.cols k c' }
+    | .err => .err
+    | .panic => .panic)
 
-def PStore.removeAll (s : PStore) (id : Nat) : PStore :=
-  { s with cols := s.cols.map (fun kc => (kc.1, kc.2.remove id)) }
+def removeAllCols (id : Nat) : List (Nat × PCol) → Res (List (Nat × PCol))
+  | [] => .ok []
+  | (k, c) :: r => match c.remove id, removeAllCols id r with
+    | .ok c', .ok r' => .ok ((k, c') :: r')
+    | .panic, _ => .panic
+    | _, .panic => .panic
+    | _, _ => .err
+
+def PStore.removeAll (s : PStore) (id : Nat) : Res PStore :=
+  match removeAllCols id s.cols with
+  | .ok cols => .ok { s with cols := cols }
+  | .err => .err
+  | .panic => .panic
 
 def PStore.forceCompressAll (s : PStore) : PStore :=
   { s with cols := s.cols.map (fun kc => (kc.1, kc.2.compress)) }
@@ -609,10 +683,16 @@ def PStore.enableCompression (s : PStore) (k : Nat) (m : CMode) : Res PStore :=
     | .err => .err
     | .panic => .panic)
 
-def PStore.getAll (s : PStore) (id : Nat) : List (Nat × PV) :=
-  s.cols.filterMap (fun kc => match kc.2.get id with
-    | some v => some (kc.1, v)
-    | none => none)
+def getAllCols (id : Nat) : List (Nat × PCol) → Res (List (Nat × PV))
+  | [] => .ok []
+  | (k, c) :: r => match c.get id, getAllCols id r with
+    | .ok (some v), .ok r' => .ok ((k, v) :: r')
+    | .ok none, .ok r' => .ok r'
+    | .panic, _ => .panic
+    | _, .panic => .panic
+    | _, _ => .err
+
+def PStore.getAll (s : PStore) (id : Nat) : Res (List (Nat × PV)) := getAllCols id s.cols
 
 /-! ## compressed adjacency chunks (index/adjacency.rs) -/
 
@@ -800,6 +880,7 @@ def selectSampleRate : Nat := 4096
 structure SBV where
   inner : BVec
   superblockRanks : List Nat
+  /-- one word per superblock: seven nine-bit relative ranks (blocks 1..7) -/
   blockRanks : List Nat
   select1Samples : List Nat
   select0Samples : List Nat
@@ -830,6 +911,17 @@ def bitsInWord (len blockIdx : Nat) : Nat :=
 def wordOnes (len blockIdx w : Nat) : Nat :=
   if bitsInWord len blockIdx = 64 then popcount w else popcount (w &&& (2 ^ bitsInWord len blockIdx - 1))
 
+/-- `if slot > 0 { if let Some(packed) = block_ranks.last_mut() { *packed |= rel << (9 * (slot - 1)) } }` -/
+def packRank (br : List Nat) (slot rel : Nat) : List Nat :=
+  if slot > 0 then br.modify (br.length - 1) (fun w => w ||| ((rel <<< (9 * (slot - 1))) % W)) else br
+
+/-- `block_rank`: the relative rank of a block, 0 for the first block of a superblock -/
+def blockRank (br : List Nat) (blockIdx : Nat) : Nat :=
+  if blockIdx % 8 = 0 then 0
+  else match br[blockIdx / 8]? with
+    | some w => (w >>> (9 * (blockIdx % 8 - 1))) &&& 511
+    | none => 0
+
 /-- one iteration of the construction loop of `from_bitvec` -/
 def sbvStep (len : Nat) (st : SbvSt) (blockIdx w : Nat) : SbvSt :=
   let newSb := blockIdx % 8 = 0
@@ -838,7 +930,7 @@ def sbvStep (len : Nat) (st : SbvSt) (blockIdx w : Nat) : SbvSt :=
   let wo := wordOnes len blockIdx w
   let wz := bitsInWord len blockIdx - wo
   { sb := sb
-    br := st.br ++ [(st.ones - sbStart) % 256]        -- `relative_rank as u8`
+    br := packRank (if newSb then st.br ++ [0] else st.br) (blockIdx % 8) (st.ones - sbStart)
     s1 := pushSamples 64 st.s1 (st.ones + wo) (blockIdx * 64)
     s0 := pushSamples 64 st.s0 (st.zeros + wz) (blockIdx * 64)
     ones := st.ones + wo
@@ -855,18 +947,6 @@ def SBV.ofBVec (v : BVec) : SBV :=
   let sb := if st.sb.length * 512 ≤ v.len ∨ st.sb.isEmpty then st.sb ++ [st.ones] else st.sb
   ⟨v, sb, st.br, st.s1, st.s0, st.ones⟩
 
-/-- no `relative_rank as u8` truncation happens while the index of this vector is built: every
-block starts with fewer than 256 ones since the start of its superblock -/
-def noTruncLoop (len : Nat) : Nat → Nat → Nat → List Nat → Bool
-  | _, _, _, [] => true
-  | i, ones, sbStart, w :: ws =>
-    decide (ones - (if i % 8 = 0 then ones else sbStart) < 256) &&
-      noTruncLoop len (i + 1) (ones + wordOnes len i w) (if i % 8 = 0 then ones else sbStart) ws
-
-def BVec.noTrunc (v : BVec) : Bool := noTruncLoop v.len 0 0 0 v.data
-
-def SBV.noTruncB (s : SBV) : Bool := s.inner.noTrunc
-
 /-- `rank1` -/
 def SBV.rank1 (s : SBV) (pos : Nat) : Res Nat :=
   if pos = 0 then .ok 0
@@ -874,7 +954,7 @@ def SBV.rank1 (s : SBV) (pos : Nat) : Res Nat :=
   else match s.superblockRanks[pos / 512]? with
     | none => .panic
     | some r0 =>
-      let r1 := r0 + (s.blockRanks.getD (pos / 64) 0)     -- guarded by `block_idx < block_ranks.len()`
+      let r1 := r0 + blockRank s.blockRanks (pos / 64)
       if pos % 64 > 0 ∧ pos / 64 < s.inner.data.length then
         .ok (r1 + popcount (s.inner.data.getD (pos / 64) 0 &&& (2 ^ (pos % 64) - 1)))
       else .ok r1
@@ -898,12 +978,10 @@ def bsSuper (sb : List Nat) (target : Nat) : Nat → Nat → Nat → Res Nat
     else .ok lo
 
 /-- the block scan of `select1`: last block of the superblock whose start rank is below the target -/
-def blockScan (br : List Nat) (base target : Nat) : Nat → Nat → Nat → Res Nat
-  | 0, _, cur => .ok cur
+def blockScan (br : List Nat) (base target : Nat) : Nat → Nat → Nat → Nat
+  | 0, _, cur => cur
   | n + 1, i, cur =>
-    match br[i]? with
-    | none => .panic
-    | some r => if base + r ≥ target then .ok cur else blockScan br base target n (i + 1) i
+    if base + blockRank br i ≥ target then cur else blockScan br base target n (i + 1) i
 
 /-- the bit scan inside one byte -/
 def selectInByte (byte : Nat) : Nat → Nat → Nat → Option Nat
@@ -929,34 +1007,32 @@ def selectBytes (word : Nat) : Nat → Nat → Nat → Res (Option Nat)
 def selectInWord (word k : Nat) : Res (Option Nat) :=
   if k ≥ popcount word then .ok none else selectBytes word 8 0 k
 
+/-- the tail of `select1` once the block `bi` with start rank `blockBase` is known -/
+def select1Word (s : SBV) (k blockBase bi : Nat) : Res (Option Nat) :=
+  if k < blockBase then .panic            -- `k - block_base_rank` underflows
+  else match s.inner.data[bi]? with
+    | none => .ok none
+    | some word =>
+      (match selectInWord word (k - blockBase) with
+       | .ok (some bitPos) =>
+         if bi * 64 + bitPos < s.inner.len then .ok (some (bi * 64 + bitPos)) else .ok none
+       | .ok none => .ok none
+       | .err => .err
+       | .panic => .panic)
+
 /-- `select1` -/
 def SBV.select1 (s : SBV) (k : Nat) : Res (Option Nat) :=
   if k ≥ s.onesCount then .ok none
   else
-    let startPos := s.select1Samples.getD (k / selectSampleRate) 0
-    match bsSuper s.superblockRanks (k + 1) s.superblockRanks.length (startPos / 512) s.superblockRanks.length with
+    match bsSuper s.superblockRanks (k + 1) s.superblockRanks.length
+        (s.select1Samples.getD (k / selectSampleRate) 0 / 512) s.superblockRanks.length with
     | .ok sbi =>
       (match s.superblockRanks[sbi]? with
        | none => .panic
        | some base =>
-         let blockEnd := min ((sbi + 1) * 8) s.blockRanks.length
-         (match blockScan s.blockRanks base (k + 1) (blockEnd - sbi * 8) (sbi * 8) (sbi * 8) with
-          | .ok bi =>
-            (match s.blockRanks[bi]? with
-             | none => .panic
-             | some r =>
-               if k < base + r then .panic            -- `k - block_base_rank` underflows
-               else match s.inner.data[bi]? with
-                 | none => .ok none
-                 | some word =>
-                   (match selectInWord word (k - (base + r)) with
-                    | .ok (some bitPos) =>
-                      if bi * 64 + bitPos < s.inner.len then .ok (some (bi * 64 + bitPos)) else .ok none
-                    | .ok none => .ok none
-                    | .err => .err
-                    | .panic => .panic))
-          | .err => .err
-          | .panic => .panic))
+         select1Word s k (base + blockRank s.blockRanks
+             (blockScan s.blockRanks base (k + 1) (min ((sbi + 1) * 8) s.inner.data.length - sbi * 8) (sbi * 8) (sbi * 8)))
+           (blockScan s.blockRanks base (k + 1) (min ((sbi + 1) * 8) s.inner.data.length - sbi * 8) (sbi * 8) (sbi * 8)))
     | .err => .err
     | .panic => .panic
 
@@ -994,7 +1070,7 @@ def SBV.select0 (s : SBV) (k : Nat) : Res (Option Nat) :=
 def SBV.countZeros (s : SBV) : Res Nat := usub s.inner.len s.onesCount
 
 def SBV.auxSize (s : SBV) : Nat :=
-  s.superblockRanks.length * 4 + s.blockRanks.length + s.select1Samples.length * 4 + s.select0Samples.length * 4
+s.superblockRanks.length * 4 + s.blockRanks.length * 8 + s.select1Samples.length * 4 + s.select0Samples.length * 4
 
 def SBV.sizeBytes (s : SBV) : Nat := s.inner.data.length * 8 + s.auxSize
 
@@ -1003,6 +1079,7 @@ def SBV.sizeBytes (s : SBV) : Nat := s.inner.data.length * 8 + s.auxSize
 structure EF where
   n : Nat
   univ : Nat
+  maxValue : Nat
   lowerBits : Nat
   lower : BVec
   upper : SBV
@@ -1033,8 +1110,9 @@ def setUpper (lb upperLen : Nat) : BVec → Nat → List Nat → Res BVec
       | .panic => .panic
     else setUpper lb upperLen u (i + 1) vs
 
-/-- `lower_bits`: 0 when `universe <= n`, else the bit length of `universe / n` -/
-def efLowerBits (n last : Nat) : Nat := if last + 1 ≤ n then 0 else bitLen ((last + 1) / n)
+/-- `lower_bits`: 0 when `universe_size <= n`, else the bit length of `universe_size / n` (computed in
+`u128`, so `last + 1` is exact), at most 63 -/
+def efLowerBits (n last : Nat) : Nat := if last + 1 ≤ n then 0 else min (bitLen ((last + 1) / n)) 63
 
 /-- `lower_mask` -/
 def efMask (lb : Nat) : Nat := if lb = 0 then 0 else if lb ≥ 64 then W - 1 else 2 ^ lb - 1
@@ -1042,10 +1120,9 @@ def efMask (lb : Nat) : Nat := if lb = 0 then 0 else if lb ≥ 64 then W - 1 els
 /-- `EliasFano::new` -/
 def EF.new (vs : List Nat) : Res EF :=
   match vs.getLast? with
-  | none => .ok ⟨0, 0, 0, BVec.empty, SBV.ofBVec BVec.empty⟩
+  | none => .ok ⟨0, 0, 0, 0, BVec.empty, SBV.ofBVec BVec.empty⟩
   | some last =>
     if !strictlyIncreasing vs then .panic
-    else if last + 1 ≥ W then .panic                       -- `values[n-1] + 1` overflows
     else
       match BVec.empty.pushAll (lowerBitsList (efMask (efLowerBits vs.length last)) (efLowerBits vs.length last) vs) with
       | .ok lower =>
@@ -1053,7 +1130,7 @@ def EF.new (vs : List Nat) : Res EF :=
         else
           (match setUpper (efLowerBits vs.length last) (vs.length + (last >>> efLowerBits vs.length last))
               (BVec.filled (vs.length + (last >>> efLowerBits vs.length last)) false) 0 vs with
-           | .ok ub => .ok ⟨vs.length, last + 1, efLowerBits vs.length last, lower, SBV.ofBVec ub⟩
+           | .ok ub => .ok ⟨vs.length, min (last + 1) (W - 1), last, efLowerBits vs.length last, lower, SBV.ofBVec ub⟩
            | .err => .err
            | .panic => .panic)
       | .err => .err
@@ -1128,7 +1205,7 @@ def EF.successor (e : EF) (value : Nat) : Res (Option Nat) :=
 
 /-- `contains` -/
 def EF.contains (e : EF) (value : Nat) : Res Bool :=
-  if e.n = 0 ∨ value ≥ e.univ then .ok false
+  if e.n = 0 ∨ value > e.maxValue then .ok false
   else match e.predecessor value with
     | .ok (some i) => (match e.get i with
       | .ok v => .ok (v == value)
@@ -1302,6 +1379,66 @@ def WT.decode (w : WT) : Res (List Nat) := accessAll w w.len 0
 
 def WT.payloadBytes (w : WT) : Nat :=
   (w.levels.map SBV.sizeBytes).sum + w.symbols.length * 8 + w.symbols.length * 16
+
+/-! ## the code before the repairs (regression witnesses only) -/
+
+namespace Old
+
+/-- `filled` used to fill the unused bits of the last word too -/
+def BVec.filled (n : Nat) (v : Bool) : BVec := ⟨List.replicate (nWords n) (if v then W - 1 else 0), n⟩
+
+/-- `not` used to flip the unused bits of the last word too -/
+def BVec.not (a : BVec) : BVec := ⟨a.data.map notW, a.len⟩
+
+/-- block ranks used to be stored as `relative_rank as u8`, one per block -/
+def sbvStep (len : Nat) (st : SbvSt) (blockIdx w : Nat) : SbvSt :=
+  { sb := if blockIdx % 8 = 0 then st.sb ++ [st.ones] else st.sb
+    br := st.br ++ [(st.ones - (if blockIdx % 8 = 0 then st.ones else st.sbStart)) % 256]
+    s1 := st.s1
+    s0 := st.s0
+    ones := st.ones + wordOnes len blockIdx w
+    zeros := st.zeros
+    sbStart := if blockIdx % 8 = 0 then st.ones else st.sbStart }
+
+def sbvLoop (len : Nat) : SbvSt → Nat → List Nat → SbvSt
+  | st, _, [] => st
+  | st, i, w :: ws => sbvLoop len (sbvStep len st i w) (i + 1) ws
+
+/-- `rank1` over the old index (`blockRanks` = one truncated value per block) -/
+def rank1 (v : BVec) (pos : Nat) : Res Nat :=
+  if pos = 0 then .ok 0
+  else if pos ≥ v.len then .ok (sbvLoop v.len {} 0 v.data).ones
+  else match (sbvLoop v.len {} 0 v.data).sb[pos / 512]? with
+    | none => .panic
+    | some r0 =>
+      if pos % 64 > 0 ∧ pos / 64 < v.data.length then
+        .ok (r0 + (sbvLoop v.len {} 0 v.data).br.getD (pos / 64) 0 +
+          popcount (v.data.getD (pos / 64) 0 &&& (2 ^ (pos % 64) - 1)))
+      else .ok (r0 + (sbvLoop v.len {} 0 v.data).br.getD (pos / 64) 0)
+
+/-- `lower_bits` used to be the bit length of `(last + 1) / n` in `u64`, up to 64 -/
+def efLowerBits (n last : Nat) : Nat := if last + 1 ≤ n then 0 else bitLen ((last + 1) / n)
+
+/-- the two panics of the old `EliasFano::new`: `values[n-1] + 1` and `values[n-1] >> 64` -/
+def efNewPanics (vs : List Nat) : Bool :=
+  match vs.getLast? with
+  | none => false
+  | some last => decide (last + 1 ≥ W) || decide (efLowerBits vs.length last ≥ 64)
+
+/-- `Vec::<Run>::with_capacity(run_count)` used to panic ("capacity overflow") when
+`run_count * 16 > isize::MAX`, before any run was read -/
+def rleDecompress (data : List Nat) : Res (List Nat) :=
+  if data.length ≥ 8 ∧ ofLe (data.take 8) ≥ 2 ^ 59 then .panic
+  else match Rle.fromBytes data with
+    | some r => .ok r.decode
+    | none => .err
+
+/-- `get` used to look at the hot buffer only; `set` and `remove` left a compressed copy in place -/
+def PCol.get (c : PCol) (id : Nat) : Option PV := hmGet c.values id
+def PCol.set (c : PCol) (id : Nat) (v : PV) : PCol := c.setHot id v
+def PCol.remove (c : PCol) (id : Nat) : PCol := { c with values := hmRemove c.values id }
+
+end Old
 
 /-! ## specifications (plain definitions the encodings are compared with) -/
 
